@@ -371,7 +371,7 @@ func (g *Gen) GenRequest(prev []Req) Req {
 	case 1:
 		m = rng.Pick(allMethods)
 	}
-	return Req{Method: m, Path: path}
+	return Req{Method: m, Path: path, Gone: rng.Chance(1, 14)}
 }
 
 // ---- schedules ----
